@@ -5,6 +5,7 @@ use crate::case::*;
 use crate::common::*;
 use crate::gen::*;
 use crate::rng::Rng;
+use crate::world::{Delivery, SinkPlan};
 
 pub struct C11;
 
@@ -39,6 +40,34 @@ fn stream_of(recs: &[&Piece]) -> Vec<u8> {
     }
     v
 }
+
+/// Near-identical nested objects: one base object and variants of it whose tokens, read
+/// without the brackets, are the same or differ in one leaf (a member moved one level up,
+/// a name or a value bumped, an object turned into an array). Whatever a run remembers
+/// about a value under a digest of it meets its look-alikes here.
+fn gen_cluster(rng: &mut Rng) -> Vec<Val> {
+    let keys = ["a", "b", "c", "x", "y", "k"];
+    let mut ks: Vec<&str> = keys.to_vec();
+    rng.shuffle(&mut ks);
+    let (k1, k2, k3, k4) = (ks[0].to_string(), ks[1].to_string(), ks[2].to_string(), ks[3].to_string());
+    let k3b = ks[4].to_string();
+    let l = Val::Int(rng.range_i64(0, 3) as i128);
+    let l2 = Val::Int(rng.range_i64(4, 6) as i128);
+    let m = Val::Int(rng.range_i64(0, 3) as i128);
+    let obj = |ms: Vec<(String, Val)>| Val::Obj(ms);
+    let x = obj(vec![(k1.clone(), obj(vec![(k2.clone(), obj(vec![(k3.clone(), l.clone())]))])), (k4.clone(), m.clone())]);
+    let y = obj(vec![(k1.clone(), obj(vec![(k2.clone(), obj(vec![])), (k3.clone(), l.clone())])), (k4.clone(), m.clone())]);
+    let y2 = obj(vec![(k1.clone(), obj(vec![(k2.clone(), obj(vec![(k3.clone(), l.clone())])), (k4.clone(), m.clone())]))]);
+    let z = obj(vec![(k1.clone(), obj(vec![(k2.clone(), obj(vec![(k3b.clone(), l.clone())]))])), (k4.clone(), m.clone())]);
+    let w = obj(vec![(k1.clone(), obj(vec![(k2.clone(), obj(vec![(k3.clone(), l2.clone())]))])), (k4.clone(), m.clone())]);
+    let v = obj(vec![(k1.clone(), obj(vec![(k2.clone(), Val::Arr(vec![Val::Str(k3.clone()), l.clone()]))])), (k4.clone(), m.clone())]);
+    vec![x, y, z, w, y2, v]
+}
+
+const CLUSTER_EXPRS: &[&str] = &[
+    "(sort .)", "(sort_unique .)", "(sort_by . .)", "(< (get . 0) (get . 1))", "(>= (get . 0) (get . 1))", "(= (get . 0) (get . 1))",
+    "(sort (push . (get . 0)))",
+];
 
 impl Property for C11 {
     fn id(&self) -> &'static str {
@@ -93,9 +122,37 @@ impl Property for C11 {
             rng.range(0, if tier == Tier::Thorough { 20 } else { 10 })
         };
         let mut vals: Vec<Val> = Vec::new();
+        // one scenario in twelve: every record is built from one cluster of look-alikes
+        let cluster: Option<Vec<Val>> = if !very_long && rng.chance(1, 12) { Some(gen_cluster(rng)) } else { None };
+        // one scenario in a hundred has one record of more than a MiB (whatever is reused from
+        // row to row - buffers - has to cope with a giant in between)
+        let giant_at = if !very_long && !long && n > 0 && rng.chance(1, 100) { Some(rng.below(n)) } else { None };
         // positions holding a raw token instead of a spelled value (never redelivered)
         let mut odd: Vec<usize> = Vec::new();
         for i in 0..n {
+            if let Some(c) = &cluster {
+                let v = if rng.chance(1, 3) {
+                    rng.pick(c).clone()
+                } else {
+                    Val::Arr((0..rng.range(2, 3)).map(|_| rng.pick(c).clone()).collect())
+                };
+                case.pieces.push(Piece::rec(spell(&v, rng, 1), i as u32));
+                vals.push(v);
+                continue;
+            }
+            if giant_at == Some(i) {
+                let len = rng.range(1_100_000, 2_400_000);
+                let v = if rng.chance(1, 2) {
+                    Val::Str("ab".repeat(len / 2))
+                } else {
+                    Val::Obj(vec![("id".into(), Val::Int(i as i128)), ("s".into(), Val::Str("x".repeat(len))), ("arr".into(), Val::Arr(vec![Val::Int(1)]))])
+                };
+                case.pieces.push(Piece::rec(spell(&v, rng, 0), i as u32));
+                let last = case.pieces.len() - 1;
+                case.pieces[last].tag = "giant".into();
+                vals.push(v);
+                continue;
+            }
             if rng.chance(1, 25) {
                 // a token that is JSON grammar but that jawk cannot hold (or tokenises in its
                 // own way): whatever it does with it, it must do it record-locally
@@ -176,6 +233,17 @@ impl Property for C11 {
                 vec!["--select".into(), ".id=id".into()],
             ];
         }
+        if cluster.is_some() {
+            case.set("isolated_runs", 1);
+            // expressions that order or compare what they are given
+            case.opts = match rng.below(3) {
+                0 => {
+                    let lit = String::from_utf8(spell(rng.pick(cluster.as_ref().unwrap()), rng, 0)).unwrap_or_default();
+                    vec![vec!["--split-by=(as_array .)".into()], vec![format!("--filter=({} . {lit})", rng.pick(&["<", ">=", "=", ">"]))]]
+                }
+                _ => (0..rng.range(1, 2)).map(|k| vec!["--select".to_string(), format!("{}=c{k}", rng.pick(CLUSTER_EXPRS))]).collect(),
+            };
+        }
         let nrec = case.pieces.len();
         case.set("cut", rng.below(nrec + 1) as i64);
         // transport plan: permutation with repetitions and drops
@@ -207,6 +275,14 @@ impl Property for C11 {
         if rng.chance(1, 3) {
             // ... and are written to a sink that takes a few bytes at a time
             case.out = gen_sink_garnish(rng, 400);
+        }
+        if giant_at.is_some() {
+            // (a MiB a byte at a time would only exhaust the event budget)
+            case.delivery = Delivery {
+                whole: true,
+                ..Delivery::default()
+            };
+            case.out = SinkPlan::default();
         }
         case
     }
